@@ -484,3 +484,22 @@ def merge_sides(ctx, field):
                     base = vt.show(val.get('rest')) if val.get('rest') is not None else ''
                     got = {'rhs'} if base.startswith(other) else ({'self'} if 'self' in base else set())
     return got if touched else {'self'}
+
+
+def raw_prefix_removed(v, param):
+    """True when the value tree `v` is derived from `param` through a step that removes the raw-identifier prefix:
+    `.replace("r#", "")`, `.trim_start_matches("r#")`, `.strip_prefix("r#")` or syn's `Ident::unraw()`."""
+    import json as _json
+    if f'"root": "{param}"' not in _json.dumps(v):
+        return False
+    for n in vt.walk(v):
+        n = vt.unvar(n) if isinstance(n, dict) else n
+        if not (isinstance(n, dict) and n.get('k') == 'call'):
+            continue
+        if n.get('f') == 'unraw':
+            return True
+        if n.get('f') in ('replace', 'replacen', 'trim_start_matches', 'strip_prefix') and n.get('args'):
+            a0 = vt.strip(n['args'][0])
+            if isinstance(a0, dict) and a0.get('k') == 'lit' and str(a0.get('v')) == 'r#':
+                return True
+    return False
